@@ -307,9 +307,13 @@ class SamplerRecorder:
                 outside = bool((delta[~mask] != 0).any()) if (~mask).any() else False
                 a0, r0 = self.pop_terms(f_old, name)
                 a1, r1 = self.pop_terms(f_new, name)
-                d = float(a1 - a0) + beta * sum(float(r1[v] - r0[v]) for v in r0)
                 u = float(rands[0]) if rands else 0.0
-                cmp = self.cmp_class(u, d, self.is_single(state, ("nll_attach",) + tuple(f"nll_regul_{v}" for v in r0)))
+                if a0 is None or a1 is None:
+                    # the model cannot evaluate one of the two points (it raises): no decision can be explained by u < exp(-D)
+                    d, cmp = float("nan"), "unevaluable"
+                else:
+                    d = float(a1 - a0) + beta * sum(float(r1[v] - r0[v]) for v in r0)
+                    cmp = self.cmp_class(u, d, self.is_single(state, ("nll_attach",) + tuple(f"nll_regul_{v}" for v in r0)))
                 accepted = len(reverts) == 0
                 x_post = _tv(state._values[name]) if put is steps[-1][1] else None
                 post_val = _tv(reverts[-1][2]) if reverts else x_prop
@@ -445,6 +449,21 @@ def extreme_scenario(rec, model, seed):
         rec.wrap(smp)
         for _ in range(3):
             smp.sample(state, temperature_inv=1.0)
+    # proposals on which the model itself raises (exp(log_g) overflows single precision: the metric of a model with sources is
+    # not a number any more): the step aborts with the model's error - no decision is taken, hence none without a draw
+    if "log_g" in state.dag and getattr(model, "source_dimension", 0):
+        from leaspy.exceptions import LeaspyModelInputError
+        gshape = tuple(state["log_g"].shape)
+        for kind_name in ("Gibbs", "FastGibbs", "Metropolis-Hastings"):
+            smp = sampler_factory(kind_name, PopulationLatentVariable, name="log_g", shape=gshape, scale=1.0, acceptation_history_length=2)
+            smp.std = torch.full_like(smp.std, 80.0)
+            rec.wrap(smp)
+            for _ in range(5):
+                st4 = state.clone()
+                try:
+                    smp.sample(st4, temperature_inv=1.0)
+                except LeaspyModelInputError:
+                    pass
     # an individual whose proposals evaluate to NaN from a finite current state: a huge acceleration exactly at a visit
     # (exp(xi) (t - tau) = big * 0 is finite, inf * 0 is not)
     if "xi" in state.dag and "tau" in state.dag and "t" in state.dag:
@@ -525,6 +544,8 @@ def explain(e):
         if e["n_rand"] != 1:
             bad.append(f"uniform draws={e['n_rand']}")
         pairs = [(e["cmp"], e["accepted"])] if e["op"] == "Step" else list(zip(e["cmps"], e["accepted"]))
+        if any(c == "unevaluable" for c, _ in pairs):
+            bad.append("a decision was taken on a proposal the model cannot evaluate")
         if any(c != "tie" and (a != (c == "lt")) for c, a in pairs):
             bad.append("decision != (u < exp(-D))")
         if not e["post_ok"]:
